@@ -356,7 +356,7 @@ def trees_for(run: Run):
             + list(G.depth1_const(ws, mixed=True, families=CONST_MIX_FAMILIES)) + conv
             + list(G._dedup(G.multi_subscripts(quick=not run.thorough)))
             + list(G._dedup(G.iter_chains(quick=not run.thorough,
-                                          consumers=G.ITER_CONSUMERS if run.thorough else ("reverse", "catnot", "anycomp")))))
+                                          consumers=("reverse", "catnot", "anycomp")))))
 
 
 def main(run: Run):
